@@ -13,6 +13,8 @@ import PqlModel.Props.C05WriteIROps
 import PqlModel.Props.C05WriteIRAll
 import PqlModel.Props.C05WriteIRStmt
 import PqlModel.Props.C02SplitImperative
+import PqlModel.Props.C05NoPlaceholder
+import PqlModel.Props.C05NoPlaceholderCli
 #print axioms Pql.C05.C05_ends_with_semicolon
 #print axioms Pql.C05.C05_subqueryName_injective
 #print axioms Pql.C05.C05_chain_names_by_index
@@ -118,3 +120,25 @@ import PqlModel.Props.C02SplitImperative
 #print axioms Pql.WriteIR.C05_dataSource_needs_table
 #print axioms Pql.WriteIR.C05_ir_keys
 #print axioms Pql.WriteIR.C05_ir_switches
+#print axioms Pql.WriteInv.C05_stored_ops
+#print axioms Pql.WriteInv.C05_write_default_unreachable
+#print axioms Pql.WriteInv.C05_parsed_irOK
+#print axioms Pql.WriteInv.C05_parsed_write_ir
+#print axioms Pql.WriteInv.C05_irOK_needs_parse
+#print axioms Pql.WriteInv.C05_no_placeholder_tree
+#print axioms Pql.WriteInv.stmtPhFree_of_sOK
+#print axioms Pql.WriteInv.parsed_phFree
+#print axioms Pql.WriteInv.C05_no_placeholder_source
+#print axioms Pql.WriteInv.C05_no_comment_source
+#print axioms Pql.WriteInv.C05_no_comment_source_k4
+#print axioms Pql.WriteInv.C05_no_comment_needs_no_params
+#print axioms Pql.WriteInv.C05_no_comment_needs_noDollar
+#print axioms Pql.WriteInv.C05_placeholder_nil
+#print axioms Pql.WriteInv.C05_placeholder_literal
+#print axioms Pql.WriteInv.C05_placeholder_unary
+#print axioms Pql.WriteInv.C05_placeholder_binary
+#print axioms Pql.WriteInv.C05_placeholder_default
+#print axioms Pql.WriteInv.C05_placeholder_reachable_only_by_bad_trees
+#print axioms Pql.WriteInv.cli_out_sqls
+#print axioms Pql.WriteInv.C05_cli_no_placeholder
+#print axioms Pql.WriteInv.C05_cli_bytes_cex
